@@ -61,6 +61,10 @@ fn main() {
             let code = props::dispatch(&ctx, replay.as_deref());
             std::process::exit(code);
         }
+        "scan-snapshot" => {
+            std::panic::set_hook(Box::new(|_| {}));
+            props::c08::scan_snapshot_main(&args[2]);
+        }
         "render" => {
             let r = runner::load_replay(&args[2]).unwrap_or_else(|| usage());
             props::render_case(&r.case);
